@@ -137,7 +137,7 @@ class Ctx:
             return res, cases
         return res
 
-    def apalache(self, module, *, init, inv, length, label, timeout=600):
+    def apalache(self, module, *, init, inv, length, label, timeout=600, expect_error=False):
         """Symbolic check with Apalache (bounded in the length of the computation, not in the values): used for inductive invariants -
         `init` = the invariant itself (with Gen(n) for the set-valued variables), length 1 = one arbitrary step."""
         import subprocess
@@ -151,9 +151,14 @@ class Ctx:
         except (subprocess.TimeoutExpired, FileNotFoundError) as ex:
             raise MachineryError(f"Apalache {label}: {type(ex).__name__}") from None
         ok = "The outcome is: NoError" in r.stdout
+        refuted = "The outcome is: Error" in r.stdout and "violation" in r.stdout
         self.m_runs.append({"model": f"Apalache {label}", "init": init, "inv": inv, "length": length, "wall_s": round(time.time() - t0, 2),
-                            "result": "no error" if ok else "error"})
+                            "result": ("no error" if ok else "error") + (" (a counterexample was expected: the statement is not vacuous)" if expect_error else "")})
         shutil.rmtree(out, ignore_errors=True)
+        if expect_error:
+            if ok or not refuted:
+                raise MachineryError(f"Apalache {label}: expected a counterexample, got: {r.stdout[-400:]}")
+            return
         if not ok:
             raise MachineryError(f"Apalache {label}: {r.stdout[-800:]}")
 
